@@ -16,7 +16,13 @@ var shapeOpts = exprOpts{showConv: true, sums: true}
 
 // returnShapes collects, per slot, the set of distinct canonical shapes over
 // all return instructions of f (struct-literal results flattened by field).
-func returnShapes(f *ssa.Function) map[string][]string {
+func returnShapes(f *ssa.Function) map[string][]string { return returnShapesO(f, shapeOpts) }
+
+// robustOpts: rendering that is stable under helper extraction / inlining,
+// buffer pre-sizing, and append-vs-fill construction.
+var robustOpts = exprOpts{showConv: true, sums: true, inline: helperInlinableLoops, cat: true, fills: true}
+
+func returnShapesO(f *ssa.Function, opts exprOpts) map[string][]string {
 	acc := map[string]map[string]bool{}
 	add := func(slot, shape string) {
 		if acc[slot] == nil {
@@ -37,11 +43,11 @@ func returnShapes(f *ssa.Function) map[string][]string {
 			}
 			if flds := structLiteralFields(v); len(flds) > 0 {
 				for k, fv := range flds {
-					add(slot+"."+k, exprStr(fv, shapeOpts))
+					add(slot+"."+k, exprStr(fv, opts))
 				}
 				continue
 			}
-			add(slot, exprStr(v, shapeOpts))
+			add(slot, exprStr(v, opts))
 		}
 	})
 	out := map[string][]string{}
